@@ -69,21 +69,6 @@ Definition path_prefixb (prefix p : str) : bool :=
 Definition path_infixb (sub p : str) : bool := list_infixb (components sub) (components p).
 Definition path_suffixb (suffix p : str) : bool := list_suffixb (components suffix) (components p).
 
-(* the shortest way to write a path with the same components *)
-Fixpoint join_segs (l : list str) : str :=
-  match l with
-  | [] => []
-  | [x] => x
-  | x :: t => x ++ 47 :: join_segs t
-  end.
-Definition canonical_text (p : str) : str :=
-  match components p with
-  | [] => [46]                 (* "."  *)
-  | [[]] => [47]               (* "/"  *)
-  | l => join_segs l
-  end.
-Definition canonical (p : str) : Prop := p = canonical_text p.
-
 Fixpoint list_eqb (a b : list str) : bool :=
   match a, b with
   | [], [] => true
